@@ -4,6 +4,7 @@ import (
 	"fmt"
 	"io"
 	"sync"
+	"sync/atomic"
 
 	"github.com/bmeg/grip/engine/pipeline"
 	"github.com/bmeg/grip/gdbi"
@@ -230,6 +231,7 @@ func (server *GripServer) addEdge(ctx context.Context, elem *gripql.GraphElement
 func (server *GripServer) BulkAdd(stream gripql.Edit_BulkAddServer) error {
 	var graphName string
 	var insertCount int32
+	// updated by the per-graph loader goroutines as well as by the receive loop
 	var errorCount int32
 
 	elementStream := make(chan *gdbi.GraphElement, 100)
@@ -242,14 +244,14 @@ func (server *GripServer) BulkAdd(stream gripql.Edit_BulkAddServer) error {
 		}
 		if err != nil {
 			log.WithFields(log.Fields{"error": err}).Error("BulkAdd: streaming error")
-			errorCount++
+			atomic.AddInt32(&errorCount, 1)
 			break
 		}
 
 		if isSchema(element.Graph) {
 			err := "cannot add element to schema graph"
 			log.WithFields(log.Fields{"error": err}).Error("BulkAdd: error")
-			errorCount++
+			atomic.AddInt32(&errorCount, 1)
 			continue
 		}
 
@@ -258,14 +260,14 @@ func (server *GripServer) BulkAdd(stream gripql.Edit_BulkAddServer) error {
 		if element.Graph != graphName {
 			gdb, err := server.getGraphDB(element.Graph)
 			if err != nil {
-				errorCount++
+				atomic.AddInt32(&errorCount, 1)
 				continue
 			}
 
 			graph, err := gdb.Graph(element.Graph)
 			if err != nil {
 				log.WithFields(log.Fields{"error": err}).Error("BulkAdd: error")
-				errorCount++
+				atomic.AddInt32(&errorCount, 1)
 				continue
 			}
 
@@ -282,7 +284,7 @@ func (server *GripServer) BulkAdd(stream gripql.Edit_BulkAddServer) error {
 				if err != nil {
 					log.WithFields(log.Fields{"graph": name, "error": err}).Error("BulkAdd: error")
 					// not a good representation of the true number of errors
-					errorCount++
+					atomic.AddInt32(&errorCount, 1)
 				}
 				wg.Done()
 			}(graphName, elementStream)
@@ -291,7 +293,7 @@ func (server *GripServer) BulkAdd(stream gripql.Edit_BulkAddServer) error {
 		if element.Vertex != nil {
 			err := element.Vertex.Validate()
 			if err != nil {
-				errorCount++
+				atomic.AddInt32(&errorCount, 1)
 				log.WithFields(log.Fields{"graph": element.Graph, "error": err}).Errorf("BulkAdd: vertex validation failed")
 			} else {
 				insertCount++
@@ -305,7 +307,7 @@ func (server *GripServer) BulkAdd(stream gripql.Edit_BulkAddServer) error {
 			}
 			err := element.Edge.Validate()
 			if err != nil {
-				errorCount++
+				atomic.AddInt32(&errorCount, 1)
 				log.WithFields(log.Fields{"graph": element.Graph, "error": err}).Errorf("BulkAdd: edge validation failed")
 			} else {
 				insertCount++
@@ -317,7 +319,7 @@ func (server *GripServer) BulkAdd(stream gripql.Edit_BulkAddServer) error {
 	close(elementStream)
 	wg.Wait()
 
-	return stream.SendAndClose(&gripql.BulkEditResult{InsertCount: insertCount, ErrorCount: errorCount})
+	return stream.SendAndClose(&gripql.BulkEditResult{InsertCount: insertCount, ErrorCount: atomic.LoadInt32(&errorCount)})
 }
 
 // DeleteVertex deletes a vertex from the server
